@@ -149,6 +149,7 @@ def check_c19(tier):
 
     def session(job):
         n, c = job
+        reopen = n >= len(maximal)       # second pass: close a document whenever the next notification is for the other one
         root = os.path.join(base, "s%d" % n)
         os.makedirs(root, exist_ok=True)
         pp = pyproject(c["cfg"])
@@ -162,7 +163,7 @@ def check_c19(tier):
             srv.initialize(root)
             opened = set()
             ver = 0
-            for ev in c["hist"]:
+            for i, ev in enumerate(c["hist"]):
                 path = os.path.join(root, FNAME[ev["d"]])
                 ver += 1
                 if ev["d"] in opened:
@@ -171,6 +172,9 @@ def check_c19(tier):
                     diags = srv.did_open(path, TEXT[ev["d"]][ev["v"]], version=ver)
                     opened.add(ev["d"])
                 out.append([diag_key(d) for d in diags])
+                if reopen and i + 1 < len(c["hist"]) and c["hist"][i + 1]["d"] != ev["d"]:
+                    srv.did_close(path)
+                    opened.discard(ev["d"])
             alive = srv.alive()
         except (lsp.ServerDied, lsp.Timeout) as e:
             return {"error": str(e), "published": out, "trace": trace}
@@ -179,9 +183,16 @@ def check_c19(tier):
             shutil.rmtree(root, ignore_errors=True)
         return {"published": out, "alive": alive, "trace": trace}
 
-    results = lsp.run_parallel(list(enumerate(maximal)), session, workers=8)
+    # second pass (close / reopen): histories that come back to a document after the other one was notified
+    back = [c for c in maximal if len(c["hist"]) >= 3 and c["hist"][-1]["d"] == c["hist"][0]["d"] and
+            any(e["d"] != c["hist"][0]["d"] for e in c["hist"][1:-1])]
+    rnd2 = random.Random(C.seed() + 19)
+    rnd2.shuffle(back)
+    back = back[:200 if tier == "quick" else 3000]
+    jobs = list(enumerate(maximal + back))
+    results = lsp.run_parallel(jobs, session, workers=8)
     sessions = 0
-    for c, res in zip(maximal, results):
+    for (jn, c), res in zip(jobs, results):
         sessions += 1
         ck = json.dumps(c["cfg"], sort_keys=True)
         if res is None or "__exception__" in res:
@@ -200,6 +211,7 @@ def check_c19(tier):
             if len(pre) >= 2 or c["cfg"]["kind"] != "absent":
                 V.nontriv((ck, json.dumps(pre)))
             ex = {"cfg": c["cfg"], "pyproject": (pyproject(c["cfg"]) or b"").decode("latin-1"), "hist": pre,
+                  "documents_closed_between_notifications": jn >= len(maximal),
                   "published": sorted(map(list, pub_set)), "expected_codes": sorted(exp_codes),
                   "library_twin": sorted(map(list, twin)),
                   "texts": [[e["d"], TEXT[e["d"]][e["v"]]] for e in pre]}
